@@ -30,6 +30,7 @@ type RawClient struct {
 	firstNonce string
 	realm      string
 	Relay      *net.UDPAddr
+	Token      []byte // RESERVATION-TOKEN of the last Allocate success
 	tidCtr     int
 	tids       map[int][12]byte  // op id -> transaction id used (last attempt)
 	sent       map[int][]byte    // op id -> last authenticated wire bytes (for replay ops)
@@ -222,6 +223,18 @@ func (c *RawClient) buildRequest(op *Op, withAuth bool, attempt int) ([]byte, [1
 		}
 		if hasFlag(op, "token") {
 			body = append(body, rawAttr{attrReservationTok, []byte("12345678")})
+		}
+		if hasFlag(op, "usetoken") {
+			// the reservation token another client (op.A.Target) was given with its EVEN-PORT allocation
+			tok := []byte("nonesuch")
+			if src := c.W.Clients[op.A.Target]; src != nil && src != c {
+				src.mu.Lock()
+				if len(src.Token) > 0 {
+					tok = append([]byte(nil), src.Token...)
+				}
+				src.mu.Unlock()
+			}
+			body = append(body, rawAttr{attrReservationTok, tok})
 		}
 	case "refresh":
 		mt = stun.NewType(stun.MethodRefresh, stun.ClassRequest)
@@ -421,6 +434,18 @@ func (c *RawClient) Do(op *Op) {
 		if b, ok := c.sent[op.A.N]; ok {
 			c.sendWire(b, &Intent{Client: c.Spec.ID, OpID: op.ID, Kind: "retransmit", Cred: "ok"})
 		}
+	case "tcp_pause":
+		// the application behind the control connection stops reading (a slow or stalled client)
+		if c.conn != nil && c.connUp {
+			c.conn.Pause()
+		}
+	case "tcp_resume":
+		if c.conn != nil && c.connUp {
+			conn := c.conn
+			c.mu.Unlock() // Resume delivers the queued bytes through onStream, which takes the lock
+			conn.Resume()
+			c.mu.Lock()
+		}
 	case "tcp_close":
 		if c.conn != nil && c.connUp {
 			if hasFlag(op, "rst") {
@@ -494,6 +519,9 @@ func (c *RawClient) onResponse(msg *stun.Message) {
 	if msg.Type.Method == stun.MethodAllocate && msg.Type.Class == stun.ClassSuccessResponse {
 		if r, ok := getXORAddr(msg, attrXORRelayedAddr); ok {
 			c.Relay = r
+		}
+		if v, err := msg.Get(attrReservationTok); err == nil {
+			c.Token = append([]byte(nil), v...)
 		}
 	}
 	if msg.Type.Method == methodConnect && msg.Type.Class == stun.ClassSuccessResponse {
